@@ -30,6 +30,8 @@ func checkC14(c *Ctx) {
 	c.rule("C14.b", "lockset for guarded fields of the server and the in-memory backend; …Locked functions called with the lock held", 80)
 	c.rule("C14.c", "no blocking channel operation under a mailbox or tracker lock", 1)
 	c.rule("C14.L", "layering lemma used to prune the call graph", 1)
+	c.rule("C14.d", "every mutex taken in a function is released on every exit (or held at all exits: transfer wrapper)", 30)
+	ruleBalancedLocks(c, "C14.d", "imapserver", "imapserver/imapmemserver")
 	c.assume("roots are the serving goroutine of each connection and the IDLE goroutine; Server.Close/Serve and direct use of the exported tracker API by other backends are outside the property's quantifier")
 	c.assume("locks are identified by access path where resolvable and by class otherwise (no points-to analysis is available offline)")
 
